@@ -169,3 +169,27 @@ func PanicString(e any) string {
 	}
 	return "panic"
 }
+
+// FuncLexer feeds the parser from a callback: the real generated lexer under the
+// reference driver (system composition, spec/Lox.tla). Next returns the terminal
+// number the lexer produced (0 = EOF).
+type FuncLexer struct {
+	Next func() int
+	N    int
+	R    *Rec
+	Peek func() (int, int)
+}
+
+func (l *FuncLexer) ReadToken() (Token, int) {
+	ty := l.Next()
+	t := Token{Ty: ty, Idx: l.N}
+	if ty != 0 {
+		l.N++
+	}
+	st, dep := -1, -1
+	if l.Peek != nil {
+		st, dep = l.Peek()
+	}
+	l.R.Read(t, st, dep)
+	return t, ty
+}
